@@ -641,7 +641,7 @@ Proof.
               (x_init_inv d) ltac:(unfold blockMax; lia) Hl Hne Hn HF Hex Hfit Hparse) as (payload & e' & x' & bt & Henc & Hdec & Hext).
   assert (Ec : blocks_content [EBComp payload regen] = regen) by (unfold blocks_content; cbn [map concat block_content]; apply app_nil_r).
   exists payload. split; [exact Henc|]. intros Hpl.
-  edestruct (decode_enc_frame cfg d p dictID [EBComp payload regen] rest e' x') as (t & Ht).
+  edestruct (decode_enc_frame cfg d p dictID [EBComp payload regen] rest e' x') as (t & Ht & _).
   - rewrite Ec. exact Hp.
   - discriminate.
   - exact Hml.
